@@ -25,10 +25,31 @@ fn feed(svc: &varlink::VarlinkService, chunks: &[Vec<u8>]) -> String {
 
 /// `careful == false`: the reference caller of test.rs and the ping example: every buffer is a transient slice and
 /// only the returned tail is kept for the next call.
+/// A writer that, like a socket under pressure, takes at most `max` bytes per write() call (0 = no limit).
+struct ShortWriter {
+    buf: Vec<u8>,
+    max: usize,
+}
+
+impl Write for ShortWriter {
+    fn write(&mut self, b: &[u8]) -> std::io::Result<usize> {
+        let n = if self.max == 0 { b.len() } else { b.len().min(self.max) };
+        self.buf.extend_from_slice(&b[..n]);
+        Ok(n)
+    }
+    fn flush(&mut self) -> std::io::Result<()> {
+        Ok(())
+    }
+}
+
 fn feed_with(svc: &varlink::VarlinkService, chunks: &[Vec<u8>], careful: bool) -> String {
+    feed_with_writer(svc, chunks, careful, 0)
+}
+
+fn feed_with_writer(svc: &varlink::VarlinkService, chunks: &[Vec<u8>], careful: bool, max_write: usize) -> String {
     let mut tail: Vec<u8> = Vec::new();
     let mut upg: Option<String> = None;
-    let mut out: Vec<u8> = Vec::new();
+    let mut out = ShortWriter { buf: Vec::new(), max: max_write };
     let mut closed = false;
     let mut err = String::from("-");
     let empty: Vec<u8> = Vec::new();
@@ -53,7 +74,7 @@ fn feed_with(svc: &varlink::VarlinkService, chunks: &[Vec<u8>], careful: bool) -
     }
     format!(
         "out={} closed={} upg={} tail={} err={}",
-        hex(&out),
+        hex(&out.buf),
         if closed { 1 } else { 0 },
         match upg {
             None => "none".to_string(),
@@ -304,6 +325,15 @@ fn main() {
                     let svc = spec.build(false);
                     let chunks: Vec<Vec<u8>> = ch.iter().map(|c| unhex(c)).collect();
                     feed(&svc, &chunks)
+                }
+                "feedw" => {
+                    // feedw <max bytes per write()> <svc..> | chunks
+                    let k: usize = rest[0].parse().unwrap();
+                    let (st, ch) = split_bar(&rest[1..]);
+                    let spec = SvcSpec::parse(&st);
+                    let svc = spec.build(false);
+                    let chunks: Vec<Vec<u8>> = ch.iter().map(|c| unhex(c)).collect();
+                    feed_with_writer(&svc, &chunks, true, k)
                 }
                 "feedcap" => {
                     let (st, ch) = split_bar(rest);
